@@ -115,7 +115,7 @@ CTYPES = [None, None, 'application/octet-stream', 'text/plain', 'application/jso
           'Multipart/Mixed; boundary=0']
 
 
-def run_real(mode, inp, cl, buf, max_body, schedule=None, rng=None, kind='cl', expect=b'', short_p=0.5, ctype=None, plain=None, _retry=0):
+def run_real(mode, inp, cl, buf, max_body, schedule=None, rng=None, kind='cl', expect=b'', short_p=0.5, ctype=None, plain=None, _retry=0, fault=False):
     """plain = k: wsgi.input is an ordinary io.BytesIO positioned at offset k of (k junk bytes + inp) -- what a test client, a
     sub-request or a buffering outer application hands over; its reads cannot be logged (no mechanism conformance for it)."""
     app, res = body_app(buf, max_body)
@@ -138,12 +138,19 @@ def run_real(mode, inp, cl, buf, max_body, schedule=None, rng=None, kind='cl', e
         env['HTTP_TRANSFER_ENCODING'] = 'chunked'
         if cl >= 0:     # a (bogus) Content-Length next to chunked framing: the framing decides
             env['CONTENT_LENGTH'] = str(cl)
+    import tempfile as _tf
+    saved_tmp = _tf.tempdir
+    if fault:
+        # injected fault: no temporary file can be created while this request is served (temp directory gone / read-only image)
+        _tf.tempdir = '/nonexistent-directory-for-ombott-verif'
     try:
         with core.time_limit(10):
             status, line, headers, body, nsr = call_app(app, env)
     except core.Hang:
         status = 0      # reported as outcome 'status0' (neither accepted nor a client error)
-    if status == 500:
+    finally:
+        _tf.tempdir = saved_tmp
+    if status == 500 and not fault:
         errs = env['wsgi.errors'].getvalue()
         if any(m in errs for m in ('Too many open files', 'No space left on device', 'Cannot allocate memory', 'MemoryError',
                                    '[Errno 12]', '[Errno 23]', '[Errno 24]', '[Errno 28]')):
@@ -163,7 +170,7 @@ def run_real(mode, inp, cl, buf, max_body, schedule=None, rng=None, kind='cl', e
         'mode': mode, 'inp': bytes(inp), 'cl': cl, 'buf': buf, 'maxBody': max_body,
         'ev': st.ev, 'phase': phase, 'out': out if phase == 'done' else b'',
         'spooled': bool(res.get('spooled', False)) if phase == 'done' else False,
-        'reread': res.get('reread', 'na') if phase == 'done' else 'na', 'ctype': ctype or '', 'opaque': plain is not None,
+        'reread': res.get('reread', 'na') if phase == 'done' else 'na', 'ctype': ctype or '', 'opaque': plain is not None, 'fault': bool(fault),
         'kind': kind, 'expect': bytes(expect), 'errors': env['wsgi.errors'].getvalue()[-400:],
     }
 
@@ -171,7 +178,7 @@ def run_real(mode, inp, cl, buf, max_body, schedule=None, rng=None, kind='cl', e
 def to_content_trace(t):
     return {'mode': t['mode'], 'inp': list(t['inp']), 'cl': t['cl'], 'buf': t['buf'], 'maxBody': t['maxBody'],
             'ev': t['ev'], 'phase': t['phase'], 'out': list(t['out']), 'spooled': t['spooled'],
-            'kind': t['kind'], 'expect': list(t['expect']), 'reread': t.get('reread', 'na')}
+            'kind': t['kind'], 'expect': list(t['expect']), 'reread': t.get('reread', 'na'), 'fault': bool(t.get('fault', False))}
 
 
 def to_num_trace(t):
@@ -222,7 +229,8 @@ def validate(chk, traces, module, clauses, what):
                           % (what, sorted(rel), t['mode'], t['cl'], t['buf'], t['maxBody'], t['phase'], len(t['ev'])), c)
             nviol += 1
     # a mechanism mismatch without a property failure is drift, not a violation
-    drift = [tid for tid in sorted(missing) if not (fails.get(tid, set()) & clauses) and not traces[tid - 1].get('opaque')]
+    drift = [tid for tid in sorted(missing) if not (fails.get(tid, set()) & clauses) and not traces[tid - 1].get('opaque')
+             and not traces[tid - 1].get('fault')]
     if drift:
         t = traces[drift[0] - 1]
         chk.drift('%s: %d recorded execution(s) are not behaviours of the implementation-shaped model '
